@@ -20,6 +20,9 @@ Local Notation rt := (@rt K Kops).
 Hypothesis Hrt : rt * rt + rt * rt = 1.
 Hypothesis H10 : 1 <> 0.
 
+Definition mz_zero : cmd K := mkCmd K (MZgate K (a_zero K) (a_zero K)) w01 false.
+Definition mz_dag : cmd K := mkCmd K (MZgate K (a_quarter K) (a_zero K)) w01 true.
+
 Ltac open_all :=
   lazy beta iota zeta delta
     [Alg.acomp Alg.aid Alg.ainv Alg.aswap Alg.mmul Alg.sinv Alg.mid Alg.mvec Alg.vadd Alg.vopp Alg.mtr
@@ -28,10 +31,7 @@ Ltac open_all :=
      Alg.lin Alg.off Alg.r0 Alg.r1 Alg.r2 Alg.r3 Alg.c0 Alg.c1 Alg.c2 Alg.c3
      Model.doc Model.doc_cmd Model.apply_sem Model.place Model.neg_p0 Model.p0z Model.hf Model.aneg
      Model.a_zero Model.a_quarter Model.w01 Model.cg Model.cw Model.cdag
-     Model.co Model.si Model.az].
-
-Definition mz_zero : cmd K := mkCmd K (MZgate K (a_zero K) (a_zero K)) w01 false.
-Definition mz_dag : cmd K := mkCmd K (MZgate K (a_quarter K) (a_zero K)) w01 true.
+     Model.co Model.si Model.az mz_zero mz_dag].
 
 Lemma mz_zero_ok : cmd_ok K mz_zero.
 Proof.
@@ -55,6 +55,33 @@ Theorem mz_dagger_refuted : apply_sem K mz_dag <> doc_cmd K mz_dag.
 Proof.
   intro E.
   apply (f_equal (fun a => c1 K (r0 K (lin K a)))) in E. revert E. open_all. intro E.
-  match type of E with ?a = ?b => idtac a; idtac b end.
-Abort.
+  assert (E2 : rt * rt = - (rt * rt)).
+  { match type of E with ?a = ?b => transitivity a; [ring | rewrite E; ring] end. }
+  apply H10. rewrite <- Hrt. rewrite E2 at 1. ring.
+Qed.
+
+(* hence the Fock compiler's table (MZgate applied natively) does not run every program as documented *)
+Theorem fock_table_refuted :
+  exists seq out, Forall (cmd_ok K) seq /\ compile K 4 tb_fock seq = Ok K out
+    /\ sem_seq K (map (apply_sem K) out) <> sem_seq K (map (doc_cmd K) seq).
+Proof.
+  exists [mz_dag], [mz_dag]. split; [constructor; [apply mz_dag_ok|constructor]|]. split; [reflexivity|].
+  cbn [map]. rewrite !(sem_seq_one K Kring). apply mz_dagger_refuted.
+Qed.
+
+(* sMZgate: the closed form used as its documented transformation is the matrix M(sigma, delta) of
+   decompositions.py for phi_in = sigma + delta, phi_ex = sigma - delta *)
+Definition a_add (a b : ang K) : ang K := mkAng K (co K a * co K b - si K a * si K b) (si K a * co K b + co K a * si K b) false.
+Definition a_sub (a b : ang K) : ang K := mkAng K (co K a * co K b + si K a * si K b) (si K a * co K b - co K a * si K b) false.
+Theorem sMZ_is_M : forall sg dl : ang K,
+  doc K (sMZgate K (a_add sg dl) (a_sub sg dl)) =
+  a_lin K (m_uni K (co K sg * si K dl) (co K sg * co K dl) (co K sg * co K dl) (- (co K sg * si K dl))
+                   (si K sg * si K dl) (si K sg * co K dl) (si K sg * co K dl) (- (si K sg * si K dl))).
+Proof.
+  intros [cs ss zs] [cd sd zd].
+  lazy beta iota zeta delta [Model.doc a_add a_sub Model.co Model.si Model.az Model.hf Alg.a_lin Alg.m_uni].
+  apply aff_eq; [|reflexivity].
+  apply M4_eq; apply V4_eq;
+    match goal with |- ?L = ?R => transitivity ((rt * rt + rt * rt) * R); [ring | rewrite Hrt; ring] end.
+Qed.
 End Refute.
